@@ -24,7 +24,7 @@ func init() {
 	register(&mc.Check{
 		ID:    "C04",
 		Level: "model_checking",
-		Rule: "all move sequences up to depth d over {aa,bb,cc,_,^,.,>,<} issued through MOVE, matching INCMP and taken CATCH on the real vm.Vm (stateless DFS, fresh instance + replay per sequence), plus all input histories up to depth h on a navigator application through engine.DefaultEngine in long-lived and persisted (mem) operation; " +
+		Rule: "all move sequences up to depth d over {aa,bb,cc,_,^,.,>,<} and over {aa,bb,root,_,^,.,>,<} (an edge back to the entry node: the entry node below itself on the stack) issued through MOVE, matching INCMP and taken CATCH on the real vm.Vm (stateless DFS, fresh instance + replay per sequence), plus all input histories up to depth h on a navigator application through engine.DefaultEngine in long-lived and persisted (mem) operation; " +
 			"the documented move table is stepped in lockstep as a stack machine and compared after every move (ExecPath, page index, Where, Depth, cache levels, persisted snapshot); states = distinct (stack, index) positions reached; non-trivial = positions with depth>=2 or index>0",
 		Assumptions: []string{"position after a failed '_' at the entry node and the page index after '^' issued at the entry node are not constrained (documentation silent)", "a named move onto the current top node is excluded (ill-formed application)", "engine level uses non-paged nodes: '>' only moves the index; rendering failures are ignored here (C02/C08)"},
 		Run:         c04Run,
@@ -42,6 +42,7 @@ type c04Witness struct {
 }
 
 var c04Alpha = []string{"aa", "bb", "cc", "_", "^", ".", ">", "<"}
+var c04AlphaRoot = []string{"aa", "bb", "root", "_", "^", ".", ">", "<"}
 
 func navApp() *app.App {
 	a := app.New("nav-halt")
@@ -307,67 +308,77 @@ func c04Run(c *mc.Ctx) {
 			c.Distinct("nontrivial", k)
 		}
 	}
-	// part A
-	for _, route := range []string{"MOVE", "INCMP", "CATCH"} {
-		for _, m0 := range c04Alpha {
-			for _, m1 := range c04Alpha {
-				if !c.Mine() {
-					continue
-				}
-				seq := []string{m0, m1}
-				var rec func()
-				rec = func() {
-					// prune with the table: skip self-moves, stop after an undefined failure
-					nm := &ref.Nav{}
-					nm.Move("root")
-					for i, mv := range seq {
-						if mv == nm.Top() {
-							return
-						}
-						res, _ := nm.Move(mv)
-						if res == ref.NavFail && route == "INCMP" {
-							nm.Move("_catch")
-						}
-						if res == ref.NavFailUndefined && i < len(seq)-1 {
-							return // longer sequences with this prefix end at the failure: already covered by the shorter one
-						}
-						if res == ref.NavFailUndefined {
-							break
-						}
+	// part A; second pass: graphs with an edge back to the entry node (the entry node below itself on the stack), only
+	// the sequences that use that edge (the others are those of the first pass)
+	for ai, c04Alpha := range [][]string{c04Alpha, c04AlphaRoot} {
+		depth := depth
+		if ai == 1 && c.Thorough() {
+			depth--
+		}
+		for _, route := range []string{"MOVE", "INCMP", "CATCH"} {
+			for _, m0 := range c04Alpha {
+				for _, m1 := range c04Alpha {
+					if !c.Mine() {
+						continue
 					}
-					ended := false
-					{
-						t := &ref.Nav{}
-						t.Move("root")
-						for _, mv := range seq {
-							if r, _ := t.Move(mv); r == ref.NavFailUndefined {
-								ended = true
-							} else if r == ref.NavFail && route == "INCMP" {
-								t.Move("_catch")
+					seq := []string{m0, m1}
+					var rec func()
+					rec = func() {
+						// prune with the table: skip self-moves, stop after an undefined failure
+						nm := &ref.Nav{}
+						nm.Move("root")
+						for i, mv := range seq {
+							if mv == nm.Top() {
+								return
+							}
+							res, _ := nm.Move(mv)
+							if res == ref.NavFail && route == "INCMP" {
+								nm.Move("_catch")
+							}
+							if res == ref.NavFailUndefined && i < len(seq)-1 {
+								return // longer sequences with this prefix end at the failure: already covered by the shorter one
+							}
+							if res == ref.NavFailUndefined {
+								break
 							}
 						}
+						ended := false
+						{
+							t := &ref.Nav{}
+							t.Move("root")
+							for _, mv := range seq {
+								if r, _ := t.Move(mv); r == ref.NavFailUndefined {
+									ended = true
+								} else if r == ref.NavFail && route == "INCMP" {
+									t.Move("_catch")
+								}
+							}
+						}
+						if len(seq) == depth || ended {
+							if ai == 1 && !strings.Contains(" "+strings.Join(seq, " ")+" ", " root ") {
+								return
+							}
+							sig, msg, steps := c04Seq(route, seq, visit)
+							c.Count("evaluations", 1)
+							c.Count("transitions", int64(steps))
+							if sig != "" {
+								c.Fail(sig, msg, c04Witness{Part: "vm", Route: route, Moves: append([]string(nil), seq...)})
+							}
+							if c.Item()%64 == 0 && len(seq) == depth {
+								c.Sample(map[string]any{"route": route, "moves": strings.Join(seq, " ")})
+							}
+							return
+						}
+						for _, mv := range c04Alpha {
+							seq = append(seq, mv)
+							rec()
+							seq = seq[:len(seq)-1]
+						}
 					}
-					if len(seq) == depth || ended {
-						sig, msg, steps := c04Seq(route, seq, visit)
-						c.Count("evaluations", 1)
-						c.Count("transitions", int64(steps))
-						if sig != "" {
-							c.Fail(sig, msg, c04Witness{Part: "vm", Route: route, Moves: append([]string(nil), seq...)})
-						}
-						if c.Item()%64 == 0 && len(seq) == depth {
-							c.Sample(map[string]any{"route": route, "moves": strings.Join(seq, " ")})
-						}
+					rec()
+					if c.TimeUp() {
 						return
 					}
-					for _, mv := range c04Alpha {
-						seq = append(seq, mv)
-						rec()
-						seq = seq[:len(seq)-1]
-					}
-				}
-				rec()
-				if c.TimeUp() {
-					return
 				}
 			}
 		}
